@@ -358,7 +358,15 @@ def build_ledger(ctx, path, own_ex):
         if drop_adt in ("strong::Rc", "weak::Weak"):
             L.add(-1, OWNER_SIDE[drop_adt], pclass(("field", "ptr", selfv)), "consume", Lin.const(1), None)
         elif drop_adt == "strong::NewRcIter":
-            L.add(-1, "strong", pclass(("field", "ptr", selfv)), "consume", lin_of(("field", "remain", selfv), subst), None)
+            # what is still held when drop returns goes away with the value: the last value written to `remain` on this
+            # path (writes themselves are accounted as old - new above), or the entry value if it is never written
+            fin = ("field", "remain", selfv)
+            for q in path.events:
+                if q.kind == "store":
+                    pl = strip(q.place)
+                    if isinstance(pl, tuple) and pl[0] == "field" and pl[1] == "remain":
+                        fin = q.value
+            L.add(-1, "strong", pclass(("field", "ptr", selfv)), "consume", lin_of(fin, subst), None)
         else:
             # the link content read through get_mut
             gm = [e for e in path.events if e.kind == "call" and (e.ntarget or "") == "atomic::Atomic::get_mut"
@@ -501,17 +509,19 @@ def rule_balance(ctx):
             r.functions.add(name)
     # counted by hand on the pinned tree (+ the five fixes) and equal to what the reader finds
     # role-based floors (forget(x) and x.into_raw() are interchangeable ways of giving up an owner)
-    roles = {"owners given up (forget + into_raw)": (counts["forget"] + counts["into_raw"], 14),
-             "owners created (from_raw)": (counts["from_raw"], 14),
-             "alloc": (counts["alloc"], 3), "strong decrements": (counts["dec_strong"], 7),
-             "weak decrements": (counts["dec_weak"], 4), "strong increments": (counts["inc_strong"], 3),
-             "weak increments": (counts["inc_weak"], 4)}
+    # (today's counts are 14/14/3/7/4/3/4; the floors leave room for siblings merged into a shared helper - a lost
+    # anchor shows up as a collapse, not as one site less)
+    roles = {"owners given up (forget + into_raw)": (counts["forget"] + counts["into_raw"], 9),
+             "owners created (from_raw)": (counts["from_raw"], 9),
+             "alloc": (counts["alloc"], 2), "strong decrements": (counts["dec_strong"], 4),
+             "weak decrements": (counts["dec_weak"], 2), "strong increments": (counts["inc_strong"], 2),
+             "weak increments": (counts["inc_weak"], 2)}
     r.notes.append("primitive event sites: %s" % counts)
     ctx._own_counts = counts
     for k, (have, fl) in roles.items():
         if have < fl:
             r.floor_failures.append("OWN-BALANCE: found %d sites of `%s`, expected at least %d (anchor lost?)" % (have, k, fl))
-    r.require(nfun, 30, "functions carrying ownership events")
+    r.require(nfun, 22, "functions carrying ownership events")
     return r
 
 
